@@ -50,6 +50,11 @@ def main():
         rc, out = sh(["git", "-C", "/repo", "worktree", "add", "--detach", wt, "HEAD"])
         try:
             rc, out = sh(["git", "apply", os.path.join(d, "patch.diff")], cwd=wt)
+            if rc != 0:     # /repo has moved on (fix commits): fall back to a three-way merge of the same change
+                rc, out = sh(["git", "apply", "--3way", os.path.join(d, "patch.diff")], cwd=wt)
+                if rc == 0:
+                    sh(["git", "reset", "-q"], cwd=wt)
+                    res["applied_3way"] = True
             res["applies"] = rc == 0
             if rc != 0:
                 res["apply_log"] = out[-500:]
